@@ -39,6 +39,10 @@ pub struct OpRec {
     /// parked inside the store call, right before it queues for the writer lock (inner gate)
     pub at_inner: bool,
     pub released_inner: bool,
+    /// mode 2 (every hook point): how many more hook points this operation may be parked at, and
+    /// whether it is parked right before the writer lock
+    pub inner_budget: usize,
+    pub at_writer_gate: bool,
 }
 
 #[derive(Default)]
@@ -53,6 +57,11 @@ pub struct GState {
     pub auto_release: Vec<String>,
     /// hold gated operations a third time: inside the store call, before they queue for the writer lock
     pub inner_gated: bool,
+    /// mode 2: park at EVERY hook point that precedes an access to shared state (writer lock and
+    /// KeyDir shards), up to a budget per operation
+    pub inner_all: bool,
+    /// the gated operation that has passed the writer gate and not yet released the writer lock
+    pub writer_holder: Option<usize>,
 }
 
 thread_local! {
@@ -63,23 +72,56 @@ thread_local! {
 /// Store hook for the inner gate: an operation that is about to queue for the writer lock (it holds
 /// nothing at that point) parks until the harness lets it continue.
 pub fn inner_gate_hook(ev: bitcask::verif::Ev) {
-    if let bitcask::verif::Ev::Acquire(r, _) = ev {
-        if r != bitcask::verif::WRITER {
-            return;
-        }
-        let cur = INNER_OP.try_with(|c| c.borrow().clone()).ok().flatten();
-        if let Some((g, id)) = cur {
+    use bitcask::verif::{Ev, WRITER};
+    let cur = INNER_OP.try_with(|c| c.borrow().clone()).ok().flatten();
+    let Some((g, id)) = cur else { return };
+    match ev {
+        Ev::Acquire(r, _) => {
             let mut st = g.m.lock().unwrap();
-            if st.ops[id].released_inner {
+            let all = st.inner_all;
+            if !all {
+                // mode 1: only the writer gate, once
+                if r != WRITER || st.ops[id].released_inner {
+                    return;
+                }
+                st.ops[id].at_inner = true;
+                g.cv.notify_all();
+                while !st.ops[id].released_inner {
+                    st = g.cv.wait(st).unwrap();
+                }
+                st.ops[id].at_inner = false;
                 return;
             }
+            // mode 2: every acquisition; the writer gate always parks (an operation let through while
+            // another one holds the lock would block where the harness can not see it)
+            if r != WRITER && r.0 != "kd" {
+                return;
+            }
+            if r != WRITER && st.ops[id].inner_budget == 0 {
+                return;
+            }
+            st.ops[id].inner_budget = st.ops[id].inner_budget.saturating_sub(1);
+            st.ops[id].released_inner = false;
             st.ops[id].at_inner = true;
+            st.ops[id].at_writer_gate = r == WRITER;
             g.cv.notify_all();
             while !st.ops[id].released_inner {
                 st = g.cv.wait(st).unwrap();
             }
             st.ops[id].at_inner = false;
+            st.ops[id].at_writer_gate = false;
+            if r == WRITER {
+                st.writer_holder = Some(id);
+            }
         }
+        Ev::Release(r, _) if r == WRITER => {
+            let mut st = g.m.lock().unwrap();
+            if st.writer_holder == Some(id) {
+                st.writer_holder = None;
+                g.cv.notify_all();
+            }
+        }
+        _ => {}
     }
 }
 
@@ -123,7 +165,8 @@ impl GateKv {
             id = st.ops.len();
             let gated = st.gated && !st.auto_release.iter().any(|p| desc.starts_with(p.as_str()));
             let inner = gated && st.inner_gated;
-            st.ops.push(OpRec { desc, lop, released_before: !gated, entered: 0, done: false, exited: 0, released_after: !gated, result: None, at_inner: false, released_inner: !inner });
+            let budget = if inner && st.inner_all { 3 } else { 0 };
+            st.ops.push(OpRec { desc, lop, released_before: !gated, entered: 0, done: false, exited: 0, released_after: !gated, result: None, at_inner: false, released_inner: !inner, inner_budget: budget, at_writer_gate: false });
             if inner {
                 INNER_OP.with(|c| *c.borrow_mut() = Some((g.clone(), id)));
             }
@@ -224,6 +267,29 @@ impl Gate {
     pub fn set_inner_gated(&self, on: bool) {
         self.m.lock().unwrap().inner_gated = on;
     }
+    pub fn set_inner_all(&self, on: bool) {
+        let mut st = self.m.lock().unwrap();
+        st.inner_gated = on;
+        st.inner_all = on;
+    }
+    /// Mode 2: let a parked operation go on to its next hook point. Returns false (and does
+    /// nothing) when it is parked at the writer gate while another gated operation holds the lock.
+    pub fn continue_inner(&self, id: usize) -> bool {
+        let mut st = self.m.lock().unwrap();
+        if !st.ops[id].at_inner {
+            return false;
+        }
+        if st.ops[id].at_writer_gate && st.writer_holder.is_some() && st.writer_holder != Some(id) {
+            return false;
+        }
+        st.ops[id].released_inner = true;
+        st.ops[id].at_inner = false;
+        self.cv.notify_all();
+        true
+    }
+    pub fn parked(&self, id: usize) -> bool {
+        self.m.lock().unwrap().ops[id].at_inner
+    }
     pub fn release_after(&self, id: usize) {
         let mut st = self.m.lock().unwrap();
         st.ops[id].released_after = true;
@@ -243,9 +309,13 @@ impl Gate {
     pub fn release_all(&self) {
         let mut st = self.m.lock().unwrap();
         st.gated = false;
+        st.inner_all = false;
+        st.inner_gated = false;
+        st.writer_holder = None;
         for o in st.ops.iter_mut() {
             o.released_before = true;
             o.released_inner = true;
+            o.inner_budget = 0;
             o.released_after = true;
         }
         self.cv.notify_all();
@@ -471,7 +541,9 @@ impl Srv {
             if t0.elapsed() > Duration::from_secs(10) {
                 return false;
             }
-            if self.thread_finished() {
+            // once run() has returned nothing is driven any more (the thread may still be busy
+            // tearing the runtime down, which waits for commands held on the blocking pool)
+            if self.thread_finished() || self.run_returned.load(Ordering::SeqCst) {
                 return true;
             }
             let running_free = {
